@@ -94,7 +94,7 @@ def rule_r1(ctx, rep):
                     "taken from a slice other than [1:]", fi.loc())
         # the length guard is reported as evidence only: whether an attribute counts as enumerated is decided semantically
         # (R2 evaluates the validator's guard chain, the table fold below evaluates the helpers)
-    rep.floor("attribute-spec subscripts", 3)
+    rep.floor("attribute-spec subscripts", 1)
     # introspection helpers folded over every attribute spec of the table
     pe = PEval(ctx.world)
     f_req = rule_method(prog, "is_required_attribute")
@@ -184,9 +184,14 @@ def rule_r2(ctx, rep):
     want_codes = {"ATTRIBUTE_REQUIRED": "rule", "ATTRIBUTE_UNRECOGNIZED": "node", "ATTRIBUTE_EXPECTED_ENUM": "node"}
     rule_attrs = {"r": [True], "o": [False], "e": [False, "a", "b"], "re": [True, "a"]}
     worlds = []
-    for combo in itertools.product([None, "a", "z"], repeat=4):
+    ABSENT = "<absent>"
+    # an attribute can be absent, present with a listed / an unlisted value, or present with the value None (a JSON null, or set
+    # programmatically): presence is what counts for "required", the value for the enumeration
+    for combo in itertools.product([ABSENT, "a", "z", None], repeat=4):
+        if sum(1 for v in combo if v is None) > 1:
+            continue
         for foreign in (False, True):
-            na = {k: v for k, v in zip(rule_attrs, combo) if v is not None}
+            na = {k: v for k, v in zip(rule_attrs, combo) if v is not ABSENT}
             if foreign:
                 na["f"] = "a"
             worlds.append(na)
